@@ -14,3 +14,9 @@ def obligations(ctx, cfg):
             StepAck(ctx, no, 2, k, 'lease', 'C03.c-ack'),
             StepModify(ctx, no, 2, k, 'lease', 'C03.c-modify'),
             StepExpire(ctx, no, 2, 0, 'lease', 'C03.c-expire')]
+
+
+def kani_harnesses(cfg):
+    q = cfg['tier'] == 'quick'
+    hs = [{'id': 'K4-ack-id-next', 'harness': 'k4_ack_id_next', 'desc': 'AckId::next on the compiled code, all u64 below MAX'}]
+    return [h for h in hs if not q or h.get('quick')]
